@@ -40,6 +40,11 @@ CHECKS = {
     category="model_checking", design_ref="4 C09",
     text="TLC verifies the row-space witness (Q^T v = 1 and v = Q w, or Fredholm certificate) of every catalogue matrix of size 1-3 (identity, scaled, prefix, total, stacked, identity+total, blocks, rank-deficient without ones, column, random unimodular) and enumerates every measurement list of length <= 2 x noise variances x dataset sizes x noise-free/perturbed, checking that noise-free data give exactly N and printing the exact rational inverse-variance estimate; each list is executed on FactoredInference, LocalInference and public_inference.estimate_total with dense/sparse/operator spellings (1e-8). Sizes 4-64 reuse the families with witnesses verified in Fraction arithmetic by a transliteration cross-checked against TLC. Call histories (supplied/omitted totals, warm start on/off) on one engine are enumerated by TotalHistory.tla.",
     note="lsmr observed, not modelled; mixture_inference not importable (jax)."),
+ "C08": dict(
+    technique="TLA+ control-flow model of the three solvers with ghost versioning (spec/est/Solvers.tla; Coherent on every exit path) model-checked by TLC; hook-H2 event streams of real runs validated by spec/est/SolverTrace.tla; returned models checked numerically for coherence",
+    category="model_checking", design_ref="4 C08",
+    text="TLC explores MD/RDA/IG x iteration counts 1-3 x line search on/off x every comparison outcome (forced accept on the 25th trial, zero-loss and zero-Lipschitz exits) and checks that the stored (parameters, marginals) pair is always a legal pair. Every seeded estimation run (3-5 attributes incl. branching junction trees, 0-5 measurements incl. the empty list, totals given/estimated, structural zeros, iteration counts 1,2,3,50, constant step sizes) is traced through hook H2 and its event stream must be a behaviour of the spec (trial counters, exact step-size exponents, branch = comparison, stored pair = last trial's BP pair / averaged iterate); the returned model must satisfy marginals = BP(parameters), and every answer over all attribute subsets must be finite, non-negative, sum to total, agree with the model's own joint and with every other answer.",
+    note="numpy backend; object identities renumbered per trace; known finding F15 (unbounded step size at a boundary optimum) is listed in known_findings.json."),
 }
 
 NOT_YET = "check not built yet (work in progress, see DESIGN.md section 8 build order)"
